@@ -301,7 +301,11 @@ def c11(tier, seed):
 
 
 def c16(tier, seed):
-    res = crash_check("C16", tier, seed, fams=
+    res = crash_check("C16", tier, seed, mc=lambda res, q: (
+        merge_mc(res, "Merge(kv)", inv=["TypeOK", "Agree", "MergeCrashSafe"], consts=None if q else {"MaxUser": "6"}),
+        merge_mc(res, "Merge+Lists(F-C16-1)", consts={"Sw": '{"Lists"}'}, inv=["MergeCrashSafe"], expect="MergeCrashSafe"),
+        merge_mc(res, "Merge+DelayedRewrite", consts={"Sw": '{"DelayedRewrite"}'}, inv=["MergeCrashSafe"], expect="MergeCrashSafe")),
+        fams=
                       [("crashmergekv", ["-mode", "keyval", "-rw", "fileio"]), ("crashmergekv", ["-mode", "keyonly", "-rw", "mmap"]),
                        ("crashmergekv", ["-mode", "keyonly", "-rw", "fileio"]), ("crashmergeds", []), ("crashmerge", [])],
                       what="after a crash inside Merge the reopened database differs from the contents before Merge (or Open failed)",
@@ -469,6 +473,18 @@ def commit_mc(res, label, consts=None, inv=None, expect=None, timeout=1800):
     res.add_mc(label, core.tlc_mc("Commit", cfg, timeout=timeout), expect_violation=expect)
 
 
+def merge_mc(res, label, consts=None, inv=None, expect=None, timeout=1800):
+    import re
+    cfg = open(os.path.join(core.SPEC, "mc", "Merge_base.cfg")).read()
+    if inv is not None:
+        cfg = re.sub(r"(?m)^INVARIANTS .*$", "INVARIANTS " + " ".join(inv), cfg)
+    for k, v in (consts or {}).items():
+        cfg, n = re.subn(r"(?m)^  %s (=|<-) .*$" % re.escape(k), "  %s = %s" % (k, v), cfg)
+        if n != 1:
+            raise Infra("constant %s not found in Merge_base.cfg" % k)
+    res.add_mc(label, core.tlc_mc("Merge", cfg, timeout=timeout), expect_violation=expect)
+
+
 def conc_shards(fams, seed, nseed, hist, steps):
     return [["%conc"] + a for a in fam_shards(fams, seed, nseed, hist, steps)]
 
@@ -566,6 +582,11 @@ def c15(tier, seed):
         mc_cfg(res, name, inv=["MCReopenInv", "TypeOK"], props=["MergePreserves"], timeout=1800)
         if not q:
             mc_cfg(res, name, inv=["MCReopenInv", "TypeOK"], props=["MergePreserves"], consts={"MaxTx": "= 3", "MaxOps": "= 3"}, simulate=(40000, 40), timeout=1800)
+    # protocol grain: Merge.tla (scan / rewrite / remove per file, crash anywhere)
+    merge_mc(res, "Merge(kv)", consts=None if q else {"MaxUser": "6"})
+    merge_mc(res, "Merge+Lists(F-C15-1)", consts={"Sw": '{"Lists"}'}, inv=["MergePreserves"], expect="MergePreserves")
+    merge_mc(res, "Merge+RewriteUncommitted", consts={"Sw": '{"RewriteUncommitted"}'}, inv=["MergePreserves"], expect="MergePreserves")
+    merge_mc(res, "Merge+ActiveRemoved", consts={"Sw": '{"ActiveRemoved"}'}, inv=["WriteDurable"], expect="WriteDurable")
     fams = [("mergekv", ["-mode", "keyval"]), ("mergekv", ["-mode", "keyonly"]), ("mergeds", []), ("merge", [])]
     shards = fam_shards(fams, seed, 2 if q else 20, 3 if q else 4, 40 if q else 100)
     rs = core.drive_and_validate(res, shards, core.dev_set(), "a read (in the process or after reopen) changed across Merge, or a write after Merge was lost",
